@@ -10,6 +10,138 @@ def is_ok(e):
     return e.get('k') == 'Call' and (e.get('fn') or '').endswith('::Ok')
 
 
+TOKENS = ('Closed', 'LeftOpen', 'RightOpen', 'Open')
+
+
+def _arm_token(arm):
+    vs = [v.split('::')[-1] for v in T.pat_variants(arm['pat'])]
+    return vs[0] if len(vs) == 1 and vs[0] in TOKENS else None
+
+
+def interval_rule(chk, fx):
+    """the static meaning of an interval type (`l<..<r` as a refinement predicate) against the run-time test emitted for the same operator (the Range class's __contains__)"""
+    import ast
+    from sa.kinds import optable as OT
+    chk.rule('C33-interval', 'for each interval operator (.., <.., ..<, <..<) the refinement type built by ty::constructors::interval excludes exactly the ends that the run-time '
+                             'class emitted for that operator (codegen emit_binop / transpiler -> _erg_range.py __contains__) excludes: `succ(l)` iff `start < item`, `pred(r)` iff '
+                             '`item < end`; otherwise the exhaustiveness test accepts an arm for a value its run-time guard rejects')
+    CONS = 'crates/erg_compiler/ty/constructors.rs'
+    f = fx.fn(CONS, 'interval')
+    if not chk.need(f is not None, 'ty::constructors::interval not found'):
+        return
+    static = {}
+    for m in T.walk(f['body']):
+        if m.get('k') != 'Match' or m.get('src') != 'Normal':
+            continue
+        for arm in m['arms']:
+            vs = [v.split('::')[-1] for v in T.pat_variants(arm['pat'])]
+            if len(vs) != 1 or vs[0] not in TOKENS:
+                continue
+            op = vs[0]
+            for c in T.calls(arm['b']):
+                nm = T.norm(T.callee(c) or '')
+                if nm in ('Predicate::ge', 'Predicate::gt', 'Predicate::le', 'Predicate::lt') and len(c['a']) >= 2:
+                    bound = T.peel(c['a'][1])
+                    wrapped = None
+                    if bound.get('k') == 'Call':
+                        wrapped = T.norm(T.callee(bound) or '').split('::')[-1]
+                    side = 'l' if nm[-2] == 'g' else 'r'
+                    strict = (nm[-1] == 't') or (wrapped == ('succ' if side == 'l' else 'pred'))
+                    if wrapped in ('succ', 'pred') and wrapped != ('succ' if side == 'l' else 'pred'):
+                        chk.bad('C33-interval', 'ty::constructors::interval', 'wrong-shift:%s:%s' % (op, side),
+                                'the %s bound of IntervalOp::%s is shifted with %s: it widens the interval instead of narrowing it' % (side, op, wrapped), CONS, c.get('l'))
+                    static.setdefault(op, {}).setdefault(side, set()).add(strict)
+    if not chk.need(set(static) == set(TOKENS), 'interval(): arms found for %s only' % sorted(static)):
+        return
+    # token -> IntervalOp
+    INST = 'crates/erg_compiler/context/instantiate_spec.rs'
+    tok2op = {}
+    for fn_ in fx.fns(INST):
+        for m in T.walk(fn_['body']):
+            if m.get('k') != 'Match':
+                continue
+            got = {}
+            for arm in m['arms']:
+                t = _arm_token(arm)
+                b = T.peel(arm['b'])
+                if t and b.get('k') == 'Path' and 'IntervalOp::' in (b.get('d') or ''):
+                    got[t] = b['d'].split('::')[-1]
+            if len(got) == 4:
+                tok2op = got
+    if not chk.need(len(tok2op) == 4, 'the TokenKind -> IntervalOp table of instantiate_spec.rs was not found'):
+        return
+    # token -> run-time class, in both back ends
+    def class_table(relfile, fnname):
+        f2 = fx.fn(relfile, fnname)
+        out = {}
+        if not f2:
+            return out
+        for m in T.walk(f2['body']):
+            if m.get('k') != 'Match':
+                continue
+            for arm in m['arms']:
+                t = _arm_token(arm)
+                if not t:
+                    continue
+                for x in T.walk(arm['b']):
+                    v = (x.get('v') or {}).get('str') if x.get('k') == 'Lit' else None
+                    if v and v.rstrip('(').endswith('Range'):
+                        out.setdefault(t, set()).add(v.rstrip('('))
+        return out
+    tables = {'codegen': class_table('crates/erg_compiler/codegen.rs', 'PyCodeGenerator::emit_binop'),
+              'transpile': class_table('crates/erg_compiler/transpile.rs', 'PyScriptGenerator::transpile_binop')}
+    classes = OT.runtime_classes()
+
+    def runtime_strict(cls):
+        m = None
+        for c in OT.mro(classes, cls):
+            m = classes[c]['methods'].get('__contains__')
+            if m and not (len(m.body) == 1 and isinstance(m.body[0], ast.Pass)):
+                break
+        if m is None:
+            return None
+        res = {}
+        for cmp_ in ast.walk(m):
+            if not isinstance(cmp_, ast.Compare):
+                continue
+            terms = [cmp_.left] + list(cmp_.comparators)
+            for i, op in enumerate(cmp_.ops):
+                a, b = ast.unparse(terms[i]), ast.unparse(terms[i + 1])
+                if isinstance(op, (ast.Lt, ast.LtE)):
+                    lo, hi = a, b
+                elif isinstance(op, (ast.Gt, ast.GtE)):
+                    lo, hi = b, a
+                else:
+                    continue
+                strict = isinstance(op, (ast.Lt, ast.Gt))
+                if lo == 'self.start':
+                    res.setdefault('l', set()).add(strict)
+                if hi == 'self.end':
+                    res.setdefault('r', set()).add(strict)
+        return res
+    for be, tab in tables.items():
+        if not chk.need(set(tab) == set(TOKENS) and all(len(v) == 1 for v in tab.values()), '%s: the interval-operator -> Range class table was not found (%s)' % (be, tab)):
+            continue
+        for t in TOKENS:
+            cls = next(iter(tab[t]))
+            rs = runtime_strict(cls)
+            if not chk.need(rs is not None and set(rs) == {'l', 'r'} and all(len(v) == 1 for v in rs.values()), '%s.__contains__: bounds not recognised (%s)' % (cls, rs)):
+                continue
+            op = tok2op[t]
+            for side in ('l', 'r'):
+                ss = static[op].get(side, set())
+                r_strict = next(iter(rs[side]))
+                inst = '%s:%s:%s' % (be, t, side)
+                if ss == {r_strict}:
+                    chk.ok('C33-interval', inst, sample='%s -> IntervalOp::%s / %s: %s end %s on both sides' % (t, op, cls, 'left' if side == 'l' else 'right',
+                                                                                                                   'excluded' if r_strict else 'included'))
+                else:
+                    chk.bad('C33-interval', 'ty::constructors::interval', 'end:%s:%s' % (t, side),
+                            'operator %s: the type built for IntervalOp::%s %s its %s end, but %s.__contains__ (%s back end) %s it: an arm of this type is counted as covering a '
+                            'value its run-time test rejects (or the reverse)' % (t, op, 'excludes' if True in ss and len(ss) == 1 else 'includes (on some arm)',
+                                                                                   'left' if side == 'l' else 'right', cls, be, 'excludes' if r_strict else 'includes'), CONS, f['line'])
+
+
 def run(chk):
     fx = F.Facts()
     chk.rule('C33-dom', 'in Context::get_match_call_t every `Ok(..)` exit is dominated by the call sub_unify(scrutinee type, union of the arm pattern types) having succeeded: '
@@ -71,4 +203,7 @@ def run(chk):
         chk.ok('C33-union', union_local, sample='%s = self.union(&%s, &arm_t) for every arm' % (union_local, union_local))
     else:
         chk.bad('C33-union', 'Context::get_match_call_t', 'union', 'the type compared with the scrutinee (`%s`) is not accumulated with self.union over all arms' % union_local, FILE, target['l'])
+    interval_rule(chk, fx)
+    return ('Dominance rule over the structured HIR of Context::get_match_call_t, and a table-agreement rule (typed HIR + python ast) over the four interval operators. '
+            'Soundness of sub_unify / union for other pattern types is not decided.'), {}
     return ('Dominance rule over the structured HIR of Context::get_match_call_t. Soundness of sub_unify / union and the run-time arm tests are not decided.'), {}
